@@ -6,18 +6,48 @@ package main
 
 import (
 	"math/rand"
+	"os"
 	"strconv"
+
+	"github.com/quickfixgo/quickfix"
+	"github.com/quickfixgo/quickfix/config"
+	"github.com/quickfixgo/quickfix/store/file"
 
 	. "qfverif/hx"
 )
 
+// a file store in dir for the session of configuration c (FileStoreSync off: durability across a process crash is C17's)
+func fileStoreFor(c cfgT, dir string) quickfix.MessageStore {
+	s := quickfix.NewSettings()
+	g := s.GlobalSettings()
+	g.Set(config.DynamicSessions, "Y")
+	g.Set(config.FileStorePath, dir)
+	g.Set(config.FileStoreSync, "N")
+	sid := quickfix.SessionID{BeginString: beginStrings[c.begin], SenderCompID: c.sender, TargetCompID: c.target}
+	st, err := file.NewStoreFactory(s).Create(sid)
+	if err != nil {
+		panic(err)
+	}
+	return st
+}
+
 func init() { Register("pair", &Stream{Gen: genPair, Run: runPair}) }
 
 type pairRig struct {
-	ca, cb cfgT
-	a, b   *rig
-	ab, ba [][]byte
-	up     bool
+	ca, cb     cfgT
+	a, b       *rig
+	ab, ba     [][]byte
+	up         bool
+	dirA, dirB string // file-store directories ("" = memory store kept across restarts)
+}
+
+func (p *pairRig) close() {
+	if p.dirA != "" {
+		_ = p.a.base.Close()
+		_ = p.b.base.Close()
+		os.RemoveAll(p.dirA)
+		os.RemoveAll(p.dirB)
+	}
 }
 
 func (p *pairRig) obs(oa, ob Sx) Sx {
@@ -110,25 +140,45 @@ func (p *pairRig) apply(ev Sx) Sx {
 		return p.obs(oa, ob)
 	case "restarta":
 		ob := p.b.apply(L(Sym("inclosed")))
-		p.a = newRigOn(p.ca, p.a.base)
+		if p.dirA != "" {
+			// the engine is discarded and recreated on its persistent store: a fresh store object on the same directory
+			_ = p.a.base.Close()
+			p.a = newRigOn(p.ca, fileStoreFor(p.ca, p.dirA))
+		} else {
+			p.a = newRigOn(p.ca, p.a.base)
+		}
 		p.ab, p.ba, p.up = nil, nil, false
 		return p.obs(p.a.idle(), ob)
 	case "restartb":
 		oa := p.a.apply(L(Sym("inclosed")))
-		p.b = newRigOn(p.cb, p.b.base)
+		if p.dirB != "" {
+			_ = p.b.base.Close()
+			p.b = newRigOn(p.cb, fileStoreFor(p.cb, p.dirB))
+		} else {
+			p.b = newRigOn(p.cb, p.b.base)
+		}
 		p.ab, p.ba, p.up = nil, nil, false
 		return p.obs(oa, p.b.idle())
 	}
 	panic("pair: unknown event " + SxString(ev))
 }
 
-func newPair(ca, cb cfgT) *pairRig { return &pairRig{ca: ca, cb: cb, a: newRig(ca), b: newRig(cb)} }
+func newPair(ca, cb cfgT, fileStore bool) *pairRig {
+	if !fileStore {
+		return &pairRig{ca: ca, cb: cb, a: newRig(ca), b: newRig(cb)}
+	}
+	da, _ := os.MkdirTemp("/verif/_build/tmp", "pairA")
+	db, _ := os.MkdirTemp("/verif/_build/tmp", "pairB")
+	return &pairRig{ca: ca, cb: cb, a: newRigOn(ca, fileStoreFor(ca, da)), b: newRigOn(cb, fileStoreFor(cb, db)), dirA: da, dirB: db}
+}
 
 func runPair(in Sx) Sx {
 	l := in.(List)
 	ca, cb := sxCfg(l[0]), sxCfg(l[1])
+	fileStore := len(l) > 3 && AtomBool(l[3])
 	return Guard(func() Sx {
-		p := newPair(ca, cb)
+		p := newPair(ca, cb, fileStore)
+		defer p.close()
 		obs := List{}
 		for _, ev := range l[2].(List) {
 			obs = append(obs, p.apply(ev))
@@ -148,9 +198,17 @@ func genOnePair(rng *rand.Rand, steps int) (Sx, Sx) {
 		return c
 	}
 	ca, cb := mk(true, "AAA", "BBB"), mk(false, "BBB", "AAA")
-	p := newPair(ca, cb)
+	fileStore := rng.Intn(3) == 0
+	p := newPair(ca, cb, fileStore)
+	defer p.close()
 	evs, obs := List{}, List{}
-	do := func(ev Sx) { evs = append(evs, ev); obs = append(obs, p.apply(ev)) }
+	do := func(ev Sx) {
+		evs = append(evs, ev)
+		if pendingCtx != nil {
+			pendingCtx.Pending(L(cfgSx(ca), cfgSx(cb), evs, Bool(fileStore)))
+		}
+		obs = append(obs, p.apply(ev))
+	}
 	n := 0
 	id := func() Sx { n++; return Str("id" + strconv.Itoa(n)) }
 	for i := 0; i < steps; i++ {
@@ -203,10 +261,11 @@ func genOnePair(rng *rand.Rand, steps int) (Sx, Sx) {
 			do(L(Sym("timerb"), Int(0)))
 		}
 	}
-	return L(cfgSx(ca), cfgSx(cb), evs), obs
+	return L(cfgSx(ca), cfgSx(cb), evs, Bool(fileStore)), obs
 }
 
 func genPair(c *Ctx) {
+	pendingCtx = c
 	for i := 0; i < c.N; i++ {
 		in, obs := genOnePair(c.Rng, 10+c.Rng.Intn(50))
 		c.Emit(in, obs)
